@@ -10,6 +10,7 @@
 -/
 import GIV.Lemmas.TxtarQuote
 import GIV.Lemmas.TxtarCRLF
+import GIV.Lemmas.TxtarIdxLoop
 
 namespace GIV.C03
 open GIV GIV.Txtar
@@ -117,5 +118,54 @@ theorem marker_crlf_eof : ∀ (body : Bytes) (nl : Bool), body.getLast? ≠ some
   fun body nl h => marker_crlf_any body h nl
 
 example : markerName ⟨lit "-- a --" ++ [CR], false⟩ = some (lit "a") := by decide +kernel
+
+/-! ### tie to the Go code: the index form
+
+`GIV.Model.TxtarIdx` transcribes archive.go statement by statement (offset `i`, `data[i:]`,
+`bytes.Index(data[i:], "\n-- ")`, `i += j+1`, checked slices, the `for name != ""` loop); it is what
+the model driver executes and what the correspondence run compares with the Go code.  The theorems
+above are about the line-structured `parse`; these theorems say the two are the same function
+(for every value of `lenGuard` / `crAtEOF`; only the three literals are used). -/
+
+/-- The index-form `Parse` is the line-structured `parse` (panics included). -/
+theorem index_form_agrees : ∀ d, parseIdx d = parse d :=
+  have : FLit := ⟨rfl, rfl⟩; have : FNLM := ⟨rfl⟩
+  parseIdx_eq
+
+example : parseIdx (lit "x\n-- a --\r\ny\n-- b --") = some ⟨lit "x\n", [⟨lit "a", lit "y\n"⟩, ⟨lit "b", []⟩]⟩ := by
+  decide +kernel
+
+/-- … and so is its `findFileMarker` (in particular the loop's fuel `len(data)+1` suffices). -/
+theorem findFileMarker_index_form_agrees : ∀ d,
+    findFileMarkerIdx d = (findFM (splitLines d) []).map Found.toIdx :=
+  have : FLit := ⟨rfl, rfl⟩; have : FNLM := ⟨rfl⟩
+  findFileMarkerIdx_eq
+
+example : findFileMarkerIdx (lit "x\ny\n-- a --\nz") = some (lit "x\ny\n", lit "a", some (lit "z")) := by
+  decide +kernel
+
+/-- … and the index form of `isMarker` on "first line `l`, then `rest`" is `markerName l`. -/
+theorem isMarker_index_form_agrees : ∀ (l : Line) (rest : Bytes), NL ∉ l.body →
+    (l.nl = false → rest = []) → (isMarkerIdx (l.bytes ++ rest)).map Prod.fst = markerName l :=
+  have : FLit := ⟨rfl, rfl⟩
+  isMarkerIdx_eq
+
+example : isMarkerIdx (lit "--  a  --\r\nrest") = some (lit "a", some (lit "rest")) := by decide +kernel
+
+/-- The index form of x/tools' `Parse` (the reference) never panics and is `refParse`. -/
+theorem ref_index_form_agrees : ∀ d, refParseIdx d = some (refParse d) :=
+  have : FLit := ⟨rfl, rfl⟩; have : FNLM := ⟨rfl⟩
+  refParseIdx_eq
+
+example : refParseIdx (lit "-- a --\r\ny") = some ⟨lit "-- a --\r\ny\n", []⟩ := by decide +kernel
+
+/-- Hence the property theorems hold of the index form, e.g. totality and re-parse stability. -/
+theorem parseIdx_total : ∀ d, (parseIdx d).isSome :=
+  fun d => index_form_agrees d ▸ parse_total d
+
+theorem parseIdx_format_parseIdx : ∀ d a, parseIdx d = some a → parseIdx (format a) = some a :=
+  fun d a h => by
+    rw [index_form_agrees] at h ⊢
+    exact parse_format_parse d a h
 
 end GIV.C03
